@@ -59,8 +59,8 @@ where
     let (x, mut y) = (core::mem::ManuallyDrop::new(x), core::mem::ManuallyDrop::new(y));
     let rx = x.try_alloc_uninit::<T>().ok().map(|b| addr(b.into_raw().cast()));
     let ry = y.allocate(Layout::new::<T>()).ok().map(|p| addr(p.cast()));
-    kani::cover!(rx.is_some(), "fits");
-    kani::cover!(rx.is_none(), "does not fit");
+    kani::cover!(rx.is_some(), "[fit] fits");
+    kani::cover!(rx.is_none(), "[nofit] does not fit");
     assert_same(&observe(&x, rx), &observe(&y, ry));
     // BumpAllocatorTyped::try_allocate_sized / try_allocate_layout
     let rx2 = x.try_allocate_sized::<T>().ok().map(|p| addr(p.cast()));
